@@ -2,6 +2,7 @@ package main
 
 import (
 	"fmt"
+	"os"
 	"reflect"
 	"regexp"
 	"strings"
@@ -24,7 +25,7 @@ func firstEngineFrame(stack string) string {
 	lines := strings.Split(stack, "\n")
 	for i, l := range lines {
 		l = strings.TrimSpace(l)
-		if strings.HasPrefix(l, "/repo/") && !strings.Contains(l, "/internal/verif/") && !strings.Contains(l, "/cmd/verifh/") && i > 0 {
+		if strings.HasPrefix(l, repoRoot()+"/") && !strings.Contains(l, "/internal/verif/") && !strings.Contains(l, "/cmd/verifh/") && i > 0 {
 			fn := strings.TrimSpace(lines[i-1])
 			if j := strings.LastIndex(fn, "("); j > 0 {
 				fn = fn[:j]
@@ -34,6 +35,13 @@ func firstEngineFrame(stack string) string {
 		}
 	}
 	return "unknown"
+}
+
+func repoRoot() string {
+	if r := os.Getenv("VERIF_REPO"); r != "" {
+		return r
+	}
+	return "/repo"
 }
 
 func blockedKey(blocked []string) string {
